@@ -119,7 +119,10 @@ def accepts_tree(clssrc, spec_src):
     try:
         os.makedirs(d + '/crysp')
         open(d + '/crysp/__init__.py', 'w').write('')
-        open(d + '/crysp/toy.py', 'w').write('import struct\nfrom functools import reduce\nimport operator\n' + clssrc + '\n')
+        import inspect
+        objsrc = inspect.getsource(FN.Obj).replace('class Obj(types.SimpleNamespace):', 'class Obj(object):')
+        # the class of the toy objects is part of the analysed tree (closed world: property setters, method write sets)
+        open(d + '/crysp/toy.py', 'w').write('import struct\nfrom functools import reduce\nimport operator\n' + objsrc + '\n' + clssrc + '\n')
         from sa import inline as _inl
         _inl.KNOWN['crysp/toy.py'] = {'functions': ['Toy.f'], 'assigns': [], 'class_assigns': []}    # `_h` is a new helper
         ctx = Ctx('C01', 'quick', 0, d)
